@@ -6,6 +6,7 @@ import (
 	"math"
 	"math/big"
 	"reflect"
+	"sort"
 	"strconv"
 	"strings"
 	"time"
@@ -36,6 +37,9 @@ var unmarshalerType = reflect.TypeOf((*flags.Unmarshaler)(nil)).Elem()
 
 // CustomUnmarshal is the reference behaviour of harness Unmarshaler types, keyed by type name.
 var CustomUnmarshal = map[string]func(string) (interface{}, error){}
+
+// CustomAppend is the reference behaviour of Unmarshaler types whose UnmarshalFlag extends the receiver.
+var CustomAppend = map[string]func(cur reflect.Value, text string) (reflect.Value, error){}
 
 func digitVal(c byte) int {
 	switch {
@@ -280,6 +284,13 @@ var ErrReject = errors.New("rejected")
 // key:value (split at the first colon) inserted.
 func Apply(cur reflect.Value, base int, text string) (reflect.Value, error) {
 	rt := cur.Type()
+	if f := CustomAppend[rt.Name()]; f != nil && rt.Name() != "" {
+		nv, err := f(cur, text)
+		if err != nil {
+			return cur, ErrReject
+		}
+		return nv, nil
+	}
 	switch {
 	case rt.Kind() == reflect.Slice && !reflect.PtrTo(rt).Implements(unmarshalerType):
 		v := ConvScalar(rt.Elem(), base, text)
@@ -380,19 +391,39 @@ func SameValue(a, b reflect.Value) bool {
 	return reflect.DeepEqual(a.Interface(), b.Interface())
 }
 
-// Show renders a value for reports.
+// Show renders a value for reports and observations (pointers are followed, map entries sorted: the
+// rendering is a function of the value, never of addresses or iteration order).
 func Show(v reflect.Value) string {
 	if !v.IsValid() {
 		return "<invalid>"
 	}
-	if v.Kind() == reflect.Ptr {
+	switch v.Kind() {
+	case reflect.Ptr, reflect.Interface:
 		if v.IsNil() {
 			return "nil"
 		}
 		return "&" + Show(v.Elem())
-	}
-	if v.Kind() == reflect.Func {
+	case reflect.Func:
 		return "func"
+	case reflect.Slice, reflect.Array:
+		if v.Kind() == reflect.Slice && v.IsNil() {
+			return v.Type().String() + "(nil)"
+		}
+		parts := make([]string, v.Len())
+		for i := range parts {
+			parts[i] = Show(v.Index(i))
+		}
+		return v.Type().String() + "{" + strings.Join(parts, ", ") + "}"
+	case reflect.Map:
+		if v.IsNil() {
+			return v.Type().String() + "(nil)"
+		}
+		var parts []string
+		for _, k := range v.MapKeys() {
+			parts = append(parts, Show(k)+":"+Show(v.MapIndex(k)))
+		}
+		sort.Strings(parts)
+		return v.Type().String() + "{" + strings.Join(parts, ", ") + "}"
 	}
 	return fmt.Sprintf("%#v", v.Interface())
 }
